@@ -350,7 +350,9 @@ def refplot_from_desc(desc):
             arr = np.empty(shape + (len(fields),))
             for f, kind in enumerate(kinds):
                 # per-field modifiers: "<kind>*<factor>" scales, "<kind>+hostile" overlays the non-finite / denormal patterns
-                scale, overlay, interior = None, False, False
+                scale, overlay, interior, negzero = None, False, False, False
+                if kind.endswith("+negzero"):
+                    kind, negzero = kind[:-8], True          # a few cells hold -0.0 (finite, equal to 0.0, other bits)
                 if kind.endswith("+nfinterior"):
                     kind, interior = kind[:-11], True
                 if kind.endswith("+hostile"):
@@ -360,6 +362,10 @@ def refplot_from_desc(desc):
                 a = gen_field(kind, lv, f, idx, cen, d["seed"])
                 if scale is not None:
                     a = a * scale
+                if negzero:
+                    flat_ = a.reshape(-1)
+                    flat_[[1 % flat_.size, (5 + f) % flat_.size]] = -0.0
+                    a = flat_.reshape(a.shape)
                 if overlay:
                     a = apply_hostile(a, f, nan=True)
                 if interior and all(n_ >= 4 for n_ in shape):
